@@ -264,9 +264,6 @@ pub enum Expect {
     Value(Value),
     /// navigation impossible: the catch branch must run with a catchable code
     Fail,
-    /// canon map, key not in the map: the implementation answers `[]`; with further accessors plain navigation of
-    /// the empty group is impossible (documented deviation, reported as a known finding)
-    AbsentKey { rest: usize },
     /// an accessor names a variable that is not set at run time: the instruction waits (joinable error)
     Waits,
 }
@@ -287,6 +284,16 @@ fn map_pairs(b: &Batch, i: usize) -> Vec<(Value, Value)> {
     }).collect()
 }
 
+/// for a path lens on a canon map whose first accessor denotes a key: (is the key in the map, number of further accessors)
+fn map_key_presence(b: &Batch, c: &Case, item: Option<&Value>) -> Option<(bool, usize)> {
+    let env = EnvView { plain: &b.env, iter: item, undefined: &b.undefined };
+    if let (Root::Map(i), Lens::Path(accs, _, _)) = (&c.root, &c.lens) {
+        let key = match &accs[0] { Acc::Idx(n) => Some(TKey::I(*n as i128)), Acc::Name(n) => Some(TKey::S(n.clone())), Acc::Var(n) => if n == "it" { None } else { env.get(n).and_then(tkey_of_value) } }?;
+        return Some((map_pairs(b, *i).iter().any(|(k, _)| tkey_of_value(k).as_ref() == Some(&key)), accs.len() - 1));
+    }
+    None
+}
+
 pub fn expect(b: &Batch, c: &Case, item: Option<&Value>) -> Expect {
     let env = EnvView { plain: &b.env, iter: item, undefined: &b.undefined };
     if let Lens::Path(accs, _, _) = &c.lens {
@@ -294,7 +301,7 @@ pub fn expect(b: &Batch, c: &Case, item: Option<&Value>) -> Expect {
         if let Some(p) = accs.iter().position(|a| matches!(a, Acc::Var(n) if env.undefined.contains(n))) {
             if p == 0 { return Expect::Waits; }
             let prefix = Case { root: c.root.clone(), lens: Lens::path(accs[..p].to_vec()), form: c.form };
-            return match expect(b, &prefix, item) { Expect::Value(_) | Expect::Waits => Expect::Waits, Expect::Fail => Expect::Fail, Expect::AbsentKey { .. } => Expect::AbsentKey { rest: accs.len() - 1 } };
+            return match expect(b, &prefix, item) { Expect::Value(_) | Expect::Waits => Expect::Waits, Expect::Fail => Expect::Fail };
         }
     }
     match &c.root {
@@ -310,7 +317,7 @@ pub fn expect(b: &Batch, c: &Case, item: Option<&Value>) -> Expect {
                     };
                     let key = match key { Some(k) => k, None => return Expect::Fail };
                     let group: Vec<Value> = pairs.iter().filter(|(k, _)| tkey_of_value(k).as_ref() == Some(&key)).map(|(_, v)| v.clone()).collect();
-                    if group.is_empty() { return Expect::AbsentKey { rest: accs.len() - 1 }; }
+                    // a key that is not in the map has the empty group: [] for the bare key, nothing to navigate into
                     match steps_of(&accs[1..], &env).and_then(|s| navigate(&Value::Array(group), &s)) { Some(v) => Expect::Value(v), None => Expect::Fail }
                 }
             }
@@ -517,6 +524,7 @@ fn check_one(rep: &mut Report, b: &Batch, air: &str, c: &Case, item: Option<&Val
     rep.case(&canon, nontrivial, || json!({"operand": operand, "root": root_json, "seen": seen_json(seen)}));
     rep.stat(&format!("kind:{kind}"));
     rep.stat(&format!("lens_len:{}", c.lens.len().min(6)));
+    match map_key_presence(b, c, item) { Some((true, _)) => rep.stat("map_key:present"), Some((false, 0)) => rep.stat("map_key:absent_bare"), Some((false, _)) => rep.stat("map_key:absent_with_further_accessors"), None => {} }
     // ---- direct oracle
     match (&exp, seen) {
         (Expect::Value(v), Seen::Put(got)) if v == got => rep.stat("outcome:selected"),
@@ -526,21 +534,6 @@ fn check_one(rep: &mut Report, b: &Batch, air: &str, c: &Case, item: Option<&Val
             if !(10000..=19999).contains(code) { rep.oracle_fail(json!({"why": format!("navigation is impossible; the error code {code} is not in the catchable range"), "message": msg, "input": with_replay(input)})); }
         }
         (Expect::Fail, other) => rep.oracle_fail(json!({"why": format!("plain JSON navigation is impossible but the lens did not fail catchably: {}", seen_json(other)), "input": with_replay(input)})),
-        (Expect::AbsentKey { rest }, Seen::Put(got)) if got == &json!([]) => {
-            if *rest == 0 { rep.stat("outcome:absent_key_empty_group"); }
-            else {
-                rep.stat("outcome:absent_key_rest_ignored");
-                // a known deviation of the unchanged code: reported once per run (the list of failures is bounded), counted always
-                if rep.stats.get("outcome:absent_key_rest_ignored") == Some(&1) {
-                    rep.oracle_fail(json!({"finding_key": "canon-map-absent-key-ignores-rest-of-lens",
-                        "why": "canon map lens with a key that is not in the map and further accessors: the implementation returns [] although navigating the empty key group is impossible (a present key with too few values fails with CanonStreamNotHaveEnoughValues)",
-                        "input": with_replay(input)}));
-                }
-            }
-        }
-        (Expect::AbsentKey { rest: 0 }, other) => rep.oracle_fail(json!({"why": format!("canon map lens selecting a key that is not in the map: expected the empty group [], got {}", seen_json(other)), "input": with_replay(input)})),
-        (Expect::AbsentKey { .. }, Seen::Err(code, _)) if (10000..=19999).contains(code) => rep.stat("outcome:absent_key_rest_fails"),
-        (Expect::AbsentKey { .. }, other) => rep.oracle_fail(json!({"why": format!("canon map lens on an absent key with further accessors: expected a catchable failure (or the known []), got {}", seen_json(other)), "input": with_replay(input)})),
         (Expect::Waits, Seen::Neither) => rep.stat("outcome:waits_for_variable"),
         (Expect::Waits, Seen::Put(_)) => {
             // legitimate only if the missing variable is never reached... it always is on success
@@ -565,8 +558,7 @@ fn check_one(rep: &mut Report, b: &Batch, air: &str, c: &Case, item: Option<&Val
     let sp = &m["spec"];
     let spec_agree = match &exp {
         Expect::Value(v) => sp.get("ok") == Some(&tag_floats(v)),
-        Expect::Fail => sp.get("none").is_some() && sp["none"] != "absent_key",
-        Expect::AbsentKey { rest } => sp["none"] == "absent_key" && sp["rest"].as_u64() == Some(*rest as u64),
+        Expect::Fail => sp.get("none").is_some(),
         Expect::Waits => sp.get("none").is_some(),
     };
     if !spec_agree { rep.disagree(json!({"op": "lens_spec", "why": "the Lean specification (navigate/resolveSteps/keyGroup) and the harness's plain navigation differ", "request": input, "model": sp, "implementation": format!("{exp:?}")})); }
